@@ -46,7 +46,7 @@ def zero(op):
     return 0 if op[0] in ("byte", "char", "short", "three", "int") else bytearray() if op[0] == "bytes" else ""
 
 
-def one_case(W, R, chunks, plans, judged=True):
+def one_case(W, R, chunks, plans, blind=False, judged=True):
     w = W.EoWriter()
     lines, impl = ["w new"], ["ok"]
     w.string_sanitization_mode = True
@@ -69,7 +69,7 @@ def one_case(W, R, chunks, plans, judged=True):
     r = R.EoReader(data)
     lines.append(f"r new 0 {tohex(data)}")
     impl.append("ok")
-    impl.append(rwlib.rop_run(r, ("chunked", True)))
+    impl.append(rwlib.rop_run(r, ("chunked", True), observe=not blind))
     lines.append("r 0 chunked 1")
     for ci, (c, plan) in enumerate(zip(chunks, plans)):
         if plan[0] == "under":
@@ -77,7 +77,7 @@ def one_case(W, R, chunks, plans, judged=True):
         else:
             reads = [(read_op(f), expect(f)) for f in c] + [(op, zero(op)) for op in plan[1]]
         for op, want in reads + [(("next",), None)]:
-            out = rwlib.rop_run(r, op)
+            out = rwlib.rop_run(r, op, observe=not blind)
             impl.append(out)
             lines.append(rwlib.rop_line(0, op))
             if judged and not out.startswith("ok " + rwlib.val_str(want) + " pos "):
@@ -112,7 +112,7 @@ def run(ctx: Ctx):
         nonlocal lines, impl, owner
         ans = ctx.driver.ask(lines)
         for a, b, o in zip(impl, ans, owner):
-            if a != b:
+            if not rwlib.same(a, b):
                 ch, pl = cases[o]
                 ctx.violation("model-impl-disagree", f"chunks {ch!r} plans {pl!r}: impl `{a[:120]}`, model `{b[:120]}`; isolation itself holds",
                               {"input": {"chunks": js(ch), "plans": js(pl)}, "impl": a, "model": b,
@@ -124,9 +124,14 @@ def run(ctx: Ctx):
 
     for chunks, plans in gen_cases(ctx):
         cases.append((chunks, plans))
-        why, im, ln = one_case(W, R, chunks, plans)
+        # a third of the cases is read "blind": the harness never asks the reader for `remaining` between the reads, so a
+        # reader whose bookkeeping is only brought up to date by that question is seen as a client would see it
+        blind = (len(cases) % 3 == 0)
+        ctx.count("observation." + ("blind" if blind else "full"))
+        why, im, ln = one_case(W, R, chunks, plans, blind=blind)
         if why:
-            ctx.violation("property-fails", why, {"input": {"chunks": js(chunks), "plans": js(plans)}})
+            ctx.violation("property-fails", why + (" (reads without asking the reader for `remaining` in between)" if blind else ""),
+                          {"input": {"chunks": js(chunks), "plans": js(plans), "blind": blind}})
             return
         lines += ln
         impl += im
@@ -167,10 +172,11 @@ def unjs(x):
 def oracle_sweep(ctx: Ctx) -> bool:
     W, R = rwlib.mods()
     for chunks, plans in gen_cases(ctx):
-        why, _, _ = one_case(W, R, chunks, plans)
-        if why:
-            ctx.violation("property-fails", why, {"input": {"chunks": js(chunks), "plans": js(plans)}})
-            return True
+        for blind in (True, False):
+            why, _, _ = one_case(W, R, chunks, plans, blind=blind)
+            if why:
+                ctx.violation("property-fails", why, {"input": {"chunks": js(chunks), "plans": js(plans), "blind": blind}})
+                return True
     return False
 
 
@@ -178,9 +184,9 @@ def replay(ctx: Ctx, doc: dict) -> int:
     W, R = rwlib.mods()
     chunks = [list(c) for c in unjs(doc["input"]["chunks"])]
     plans = [(p[0], p[1] if p[0] == "under" else list(p[1])) for p in unjs(doc["input"]["plans"])]
-    why, im, ln = one_case(W, R, chunks, plans)
+    why, im, ln = one_case(W, R, chunks, plans, blind=bool(doc["input"].get("blind", False)))
     ans = ctx.driver.ask(ln)
     for l, a, b in zip(ln, im, ans):
         print(f"{l[:50]:50s} impl={a[:60]} model={b[:60]}")
     print("property:", why or "holds")
-    return 1 if (why or im != ans) else 0
+    return 1 if (why or any(not rwlib.same(a, b) for a, b in zip(im, ans))) else 0
